@@ -15,9 +15,15 @@ f) candidate-zone identity: zone ids restart at 0 for every event type inside a 
 g) hydration completeness: ZoneHydrator groups zones for loading by `zone.uid()` falling back to the plan's own event-type uid, so zones produced by index pruners (no uid) are still hydrated when
    they are combined with uid-tagged zones of all-zones fallbacks.
 Not decided: that each leaf strategy's zone set is a superset for all values (C08), literal typing, ZoneCombiner's set algebra bodies.
+h) the three dense-buffer accessors of the row filter (PreparedAccessor::get_{i64,u64,f64}_buffer_with_validity) agree on what "this column is not of my kind" looks like: each returns Some only
+   on an edge where at least one entry was valid - an all-invalid buffer returned as Some stops evaluate_numeric_simd from trying the next kind, and every row of e.g. a float column fails an integer literal.
+i) every comparison leaf of WHERE becomes a row condition: in ConditionEvaluatorBuilder::add_where_clause no path through the Compare arm returns without add_numeric_condition / add_string_condition /
+   add_logical_condition (a literal kind the chain does not recognise - today: a fractional number - silently filters nothing, and `WHERE x > 1.7` returns every row).
+j) the event-at-a-time evaluation of a numeric condition (memtable rows) reads the field through the same kinds as the columnar one (i64, u64, f64): NumericCondition::evaluate_event_direct and
+   evaluate_at are siblings; a kind only one of them reads gives different answers before and after FLUSH.
 """
-FLOOR = 11
-REQUIRED = ["C02.a1", "C02.a2", "C02.a3", "C02.a4", "C02.b", "C02.c", "C02.d", "C02.e1", "C02.e2", "C02.f", "C02.g"]
+FLOOR = 14
+REQUIRED = ["C02.a1", "C02.a2", "C02.a3", "C02.a4", "C02.b", "C02.c", "C02.d", "C02.e1", "C02.e2", "C02.f", "C02.g", "C02.h", "C02.i", "C02.j"]
 
 SUPERSET = r"(collect_zones_for_scope|create_all_zones_for_segment_from_meta(_cached)?)$"
 
@@ -320,3 +326,73 @@ def run(ctx):
             return [("uid-fallback-unused", "the plan's event-type uid is not used as the grouping key for untagged zones", None)]
         return []
     ctx.run("C02.g", "K7 PROV", "ZoneHydrator::hydrate", "every candidate zone is hydrated, tagged or not", g_)
+
+    def h_(inst):
+        bad = []
+        for kind in ("i64", "u64", "f64"):
+            b = F.fn("PreparedAccessor::get_%s_buffer_with_validity" % kind)
+            hs_ = for_headers(b)
+            somes = [(bb, v) for (bb, j, v, dst) in b.aggregates("option::Option", "Some") if dst[0] == 0 and any(b.can_reach(h.bb, bb) for h in hs_)]
+            if not somes:
+                raise AnchorMissing("Some(..) return after the fill loop in get_%s_buffer_with_validity" % kind)
+            guarded = 0
+            for (bb, v) in somes:
+                # dominated by the true edge of a bool that is set to true exactly where a valid entry is pushed
+                ok = False
+                for i in sorted(b.live_blocks()):
+                    if b.blocks[i]["t"]["t"] != "switch":
+                        continue
+                    si = b.switch_info(i)
+                    if si and si["kind"] == "bool" and si["true"] is not None and b.dominates_edge((i, si["true"]), bb):
+                        for l_ in b._origin_locals(si["op"], depth=6):
+                            if any(j != -1 and rv.get("r") == "use" and rv["o"].get("k") == "true" for (bb2, j, dpl, rv) in b.defs().get(l_, [])):
+                                ok = True
+                guarded += ok
+            inst.sites.append("get_%s_buffer_with_validity: %d Some return(s), %d behind an any-valid flag" % (kind, len(somes), guarded))
+            if guarded < len(somes):
+                bad.append(("all-invalid-buffer-returned:%s" % kind, "get_%s_buffer_with_validity can return Some(buffer) with no valid entry: the numeric SIMD evaluation takes it as 'this is a %s column' and never tries the other kinds" % (kind, kind), None))
+        return bad
+    ctx.run("C02.h", "K11 SIB", "PreparedAccessor::get_{i64,u64,f64}_buffer_with_validity", "a typed buffer is handed out only if the column has a value of that type", h_)
+
+    def i_(inst):
+        b = F.fn("ConditionEvaluatorBuilder::add_where_clause")
+        sw = [(i, b.switch_info(i)) for i in sorted(b.live_blocks()) if b.blocks[i]["t"]["t"] == "switch"]
+        sw = [(i, si) for i, si in sw if si and si["kind"] == "enum" and str(si.get("adt") or "").endswith("types::Expr")]
+        if not sw:
+            raise AnchorMissing("match on Expr in add_where_clause")
+        i, si = sw[0]
+        cmp_edges = [(i, t) for t in edges_for_variant(si, "Compare")]
+        adds = [c_ for c_ in b.find_calls(r"ConditionEvaluator::add_(numeric|string|logical|in_numeric|in_string|\w+)_condition$|ConditionEvaluator::add_\w+$")]
+        inst.sites = [sp(b, c_.bb) for c_ in adds[:6]]
+        if not adds:
+            raise AnchorMissing("add_*_condition calls in add_where_clause")
+        seen = b.reach(0, src_edges=cmp_edges, cut_blocks=[c_.bb for c_ in adds])
+        esc = [x for x in b.exits() if x in seen]
+        if esc:
+            return [("compare-leaf-ignored", "add_where_clause can return from the Compare arm without adding any condition (a literal kind the chain does not recognise): the leaf then filters nothing", witness_path(b, seen, esc[0]))]
+        return []
+    ctx.run("C02.i", "K2 CUT", "ConditionEvaluatorBuilder::add_where_clause", "every comparison leaf of WHERE becomes a row condition", i_)
+
+    def j_(inst):
+        ev = F.method("NumericCondition", "Condition", "evaluate_event_direct")
+        at = F.method("NumericCondition", "Condition", "evaluate_at")
+
+        def kinds(b_):
+            out = set()
+            fam = [b_] + [F.fn_exact(k) for k in F.find("^" + re.escape(b_.key) + r"::\{closure")]
+            for B in fam:
+                for c_ in B.calls:
+                    if c_.cleanup:
+                        continue
+                    m_ = re.search(r"get_(?:field_as_)?(i64|u64|f64)(?:_at)?$", c_.nname)
+                    if m_:
+                        out.add(m_.group(1))
+            return out
+        ke, ka = kinds(ev), kinds(at)
+        inst.sites = ["evaluate_event_direct reads %s" % sorted(ke), "evaluate_at reads %s" % sorted(ka)]
+        if not ka or not ke:
+            raise AnchorMissing("typed field reads in NumericCondition::{evaluate_at, evaluate_event_direct}")
+        if ka - ke:
+            return [("memtable-row-kinds", "NumericCondition::evaluate_event_direct reads a field only as %s while the columnar evaluate_at also reads %s: a float (or large u64) value matches an integer literal after FLUSH but not before" % (sorted(ke), sorted(ka - ke)), None)]
+        return []
+    ctx.run("C02.j", "K11 SIB", "NumericCondition::evaluate_event_direct vs evaluate_at", "memtable rows and segment rows are compared through the same numeric kinds", j_)
